@@ -508,6 +508,17 @@ class MethodCtx:
 
     # -- if ---------------------------------------------------------------
     def if_stmt(self, test, body, orelse, rest, env, mode):
+        # `if logger.isEnabledFor(...):` guarding nothing but logging calls: a no-op
+        if isinstance(test, ast.Call) and ast.unparse(test.func) == "logger.isEnabledFor" and not orelse \
+                and all(isinstance(b, ast.Expr) and isinstance(b.value, ast.Call) and ast.unparse(b.value.func).startswith("logger.")
+                        for b in body):
+            # (modelled configuration: that log level is disabled, the guarded calls do not run)
+            return self.block(list(rest), env, mode)
+        # a configuration flag declared constant (e.g. tracing disabled): the branch is chosen statically
+        if isinstance(test, ast.Attribute) and isinstance(test.value, ast.Name) and test.value.id == "self" \
+                and test.attr in self.cls.consts and self.cls.consts[test.attr][0] in ("true", "false"):
+            chosen = body if self.cls.consts[test.attr][0] == "true" else orelse
+            return self.block(list(chosen) + list(rest), env, mode)
         # desugar boolean structure into nested ifs (exact short-circuit semantics; enables narrowing)
         if isinstance(test, ast.BoolOp) and isinstance(test.op, ast.Or):
             first, others = test.values[0], test.values[1:]
@@ -1229,6 +1240,13 @@ class MethodCtx:
                 if kt not in ZLIKE:
                     _u(e, "sort key must be an integer")
                 return f"(py_sorted_by (fun {x} => {k}) {l})", lt
+            if f.id == "bool" and len(e.args) == 1:
+                x, t = self.expr(e.args[0], env)
+                if isinstance(t, tuple) and t[0] == "list":
+                    return f"(negb (match {x} with [] => true | _ => false end))", "B"
+                if t == "B":
+                    return x, "B"
+                _u(e, "bool() of a value that is neither a list nor a bool")
             if f.id == "float" and len(e.args) == 1:
                 x, t = self.expr(e.args[0], env, "F")
                 if t == "F":
